@@ -3792,6 +3792,14 @@ def literal_job(job):
                 ctx.reachable(ex, o.path, "the literal %s (%s) does not produce exactly one %s token" % (label, parser, LITERAL_PARSERS[parser][1]), rp)
                 continue
             seen_token = True
+            if parser == "money_regex_parser":
+                # the alias pass that runs next rewrites ANY token whose recorded text contains an alias word (euro, dollar, ...):
+                # a money token must be recorded under the written amount only, or 'N euro' loses its amount
+                ev = [e for e in o.path.events if e[0] == LITERAL_PARSERS[parser][2]][0]
+                txt = ev[1][4] if len(ev[1]) > 4 else None
+                if not (isinstance(txt, DecStrV) and all(c[0] == "d" or c[1] in ",.+-" for c in txt.chars)):
+                    ctx.reachable(ex, o.path, "the money token of the literal %s is recorded under a text that is not the written amount (the alias pass rewrites tokens by their text)" % label, rp)
+                    continue
             if ctx.claim(ex, o.path, tok.f[0].t == intended * z3.ToReal(factor), "the literal %s (%s) does not denote the number written (times the power of 1000 of its suffix)" % (label, parser), rp) == "unsat":
                 n_ok += 1
         if not seen_token and not ctx.failures:
@@ -4940,3 +4948,220 @@ def _(ctx):
 @spec("C06", "m_money_literals", "the money literal kernel registered for C06 (money_regex_parser on a PRICE group written in the configured convention with a magnitude suffix k K M G T P Z Y as a symbolic text, the currency resolved through the symbolic tables): the amount is the number written times the power of 1000 of its suffix, in the named currency")
 def _(ctx):
     number_literal_spec(ctx, ("money_regex_parser",))
+
+
+
+# ============================================================================ the literal patterns of config.json admit the written shapes (regex language inclusion)
+def _unescape_z3(sv):
+    import re as _r
+    return _r.sub(r"\\u\{([0-9a-fA-F]+)\}", lambda m: chr(int(m.group(1), 16)), sv)
+
+
+def literal_patterns_spec(ctx, kinds):
+    """for every separator convention the literal regexes admit: every literal of the written shape the kernels are decided
+    for is matched AS A WHOLE by one of config.json's patterns of its kind (z3 regular-expression inclusion)"""
+    import json as _json
+    import os as _os
+    import struct as _struct
+    import common
+    import regexsmt as R
+    parse = _json.load(open(_os.path.join(common.REPO, "src/json/config.json")))["parse"]
+    ctx.part.functions.append("config.json parse.{%s}" % ",".join(kinds))
+    letters = z3.Union(z3.Range("a", "z"), z3.Range("A", "Z"))
+    suffix = z3.Union(*[z3.Re(c) for c in "kKMGTPZY"])
+    factor = {"k": 1e3, "K": 1e3, "M": 1e6, "G": 1e9, "T": 1e12, "P": 1e15, "Z": 1e18, "Y": 1e21}
+    n = 0
+
+    def value_of(text, ts, ds):
+        t = text.replace(ts, "") if ts else text
+        t = t.replace(ds, ".")
+        return float(t)
+
+    def check(kind_code, conv, shape, lang, what, expected_of):
+        nonlocal n
+        n += 1
+        ctx.part.queries += 1
+        w = R.included(shape, lang)
+        if w is None:
+            return
+        w = _unescape_z3(w)
+        try:
+            exp = expected_of(w)
+        except Exception:  # noqa: BLE001
+            exp = 0.0
+        raw = w.encode("utf-8")
+        rp = ("m_replay_literal_string", [[kind_code], [conv], [len(raw)]] + [[b] for b in raw] + [list(_struct.pack("<d", exp))])
+        ctx.failures.append(("%s: the literal %r is not matched as a whole by any pattern of config.json" % (what, w), {"literal": w}, rp))
+
+    for conv, (ts, ds) in enumerate(((",", "."), (".", ","))):
+        W = R.written(ts, ds)
+        strip = lambda t: t.lstrip("+")
+        if "number" in kinds:
+            lang = R.union(parse["number"])
+            check(0, conv, W, lang, "number literal (thousands %r, decimal %r)" % (ts, ds), lambda w: value_of(w, ts, ds))
+            check(0, conv, z3.Concat(W, suffix), lang, "number literal with a magnitude suffix (thousands %r, decimal %r)" % (ts, ds), lambda w: value_of(w[:-1], ts, ds) * factor[w[-1]])
+        if "percent" in kinds:
+            lang = R.union(parse["percent"])
+            check(1, conv, z3.Concat(W, z3.Re("%")), lang, "percent literal N%% (thousands %r, decimal %r)" % (ts, ds), lambda w: value_of(w[:-1], ts, ds))
+            check(1, conv, z3.Concat(z3.Re("%"), W), lang, "percent literal %%N (thousands %r, decimal %r)" % (ts, ds), lambda w: value_of(w[1:], ts, ds))
+        if "money" in kinds:
+            lang = R.union(parse["money"])
+            Wm = R.written(ts, ds, signed=False)
+            check(2, conv, z3.Concat(z3.Re("$"), Wm, z3.Option(suffix)), lang, "money literal $N[suffix] (thousands %r, decimal %r)" % (ts, ds),
+                  lambda w: value_of(w[1:].rstrip("kKMGTPZY"), ts, ds) * (factor[w[-1]] if w[-1] in factor else 1.0))
+            for code in ("usd", "EUR", "try"):
+                check(2, conv, z3.Concat(Wm, z3.Loop(z3.Re(" "), 0, 2), z3.Re(code)), lang, "money literal N %s (thousands %r, decimal %r)" % (code, ts, ds),
+                      lambda w, code=code: value_of(w[:-len(code)].strip(), ts, ds))
+                check(2, conv, z3.Concat(Wm, suffix, z3.Loop(z3.Re(" "), 1, 2), z3.Re(code)), lang, "money literal N<suffix> %s (thousands %r, decimal %r)" % (code, ts, ds),
+                      lambda w, code=code: value_of(w[:-len(code)].strip()[:-1], ts, ds) * factor[w[:-len(code)].strip()[-1]])
+    if "number" in kinds:
+        lang = R.union(parse["number"])
+        hexd = z3.Union(z3.Range("1", "9"), z3.Range("a", "f"), z3.Range("A", "F"))
+        check(4, 0, z3.Concat(z3.Re("0"), z3.Union(z3.Re("x"), z3.Re("X")), z3.Loop(hexd, 1, 15)), lang, "hexadecimal literal", lambda w: float(int(w[2:], 16)))
+        check(4, 0, z3.Concat(z3.Re("0"), z3.Union(z3.Re("o"), z3.Re("O")), z3.Loop(z3.Range("1", "7"), 1, 20)), lang, "octal literal", lambda w: float(int(w[2:], 8)))
+        check(4, 0, z3.Concat(z3.Re("0"), z3.Union(z3.Re("b"), z3.Re("B")), z3.Re("1"), z3.Loop(z3.Range("0", "1"), 0, 61)), lang, "binary literal", lambda w: float(int(w[2:], 2)))
+    if "time" in kinds:
+        lang = R.union(parse["time"])
+        hh = z3.Union(z3.Concat(z3.Option(z3.Range("0", "1")), z3.Range("0", "9")), z3.Concat(z3.Re("2"), z3.Range("0", "3")))
+        mm = z3.Concat(z3.Range("0", "5"), z3.Range("0", "9"))
+        check(3, 0, z3.Concat(hh, z3.Re(":"), mm), lang, "clock time hh:mm", lambda w: 0.0)
+        check(3, 0, z3.Concat(hh, z3.Re(":"), mm, z3.Re(":"), mm), lang, "clock time hh:mm:ss", lambda w: 0.0)
+        h12 = z3.Union(z3.Range("1", "9"), z3.Concat(z3.Re("1"), z3.Range("0", "2")))
+        mer = z3.Concat(z3.Union(z3.Re("a"), z3.Re("A"), z3.Re("p"), z3.Re("P")), z3.Union(z3.Re("m"), z3.Re("M")))
+        check(3, 0, z3.Concat(h12, z3.Option(z3.Re(" ")), mer), lang, "clock time h am/pm", lambda w: 0.0)
+        check(3, 0, z3.Concat(h12, z3.Re(":"), mm, z3.Option(z3.Re(" ")), mer), lang, "clock time h:mm am/pm", lambda w: 0.0)
+    if not n:
+        ctx.failures.append(("literal patterns: nothing checked", {}, None))
+
+
+@spec("C08", "r_literal_patterns", "config.json's number / percent / money patterns translated to z3 regular expressions: under both separator conventions every literal of the written shapes the reading kernels are decided for - [sign] 1..3 digits, up to three groups of three joined by the thousands separator (or one run of up to 12 digits), an optional fraction of 1..3 digits behind the decimal separator; N% and %N; $N with suffix, N code, N<suffix> code; 0x / 0o / 0b literals - is matched AS A WHOLE by one of the patterns (language inclusion decided by the solver for all digits; a literal that is not, is replayed natively)")
+def _(ctx):
+    literal_patterns_spec(ctx, ("number", "percent", "money"))
+
+
+@spec("C05", "r_literal_patterns", "the percent patterns registered for C05: both spellings N% and %N of every written shape are matched as a whole")
+def _(ctx):
+    literal_patterns_spec(ctx, ("percent",))
+
+
+@spec("C06", "r_literal_patterns", "the money patterns registered for C06: symbol before the amount, code after it, with and without a magnitude suffix")
+def _(ctx):
+    literal_patterns_spec(ctx, ("money",))
+
+
+@spec("C13", "r_literal_patterns", "the number patterns registered for C13: 0x / 0o / 0b literals of every length the reader accepts are matched as a whole")
+def _(ctx):
+    literal_patterns_spec(ctx, ("number",))
+
+
+@spec("C02", "r_literal_patterns", "the number patterns registered for C02: decimal literals with and without a magnitude suffix")
+def _(ctx):
+    literal_patterns_spec(ctx, ("number",))
+
+
+@spec("C11", "r_literal_patterns", "the time patterns registered for C11: hh:mm, hh:mm:ss, h am/pm, h:mm am/pm are matched as a whole")
+def _(ctx):
+    literal_patterns_spec(ctx, ("time",))
+
+
+
+# ============================================================================ no earlier pattern claims a part of a based / decimal literal (regex languages)
+HEX_MONEY_KNOWN = ("xaf", "xcd", "aed", "bbd", "cad", "cdf")     # the recorded known finding C13-hex-literal-read-as-money
+
+
+def _ci(word):
+    return z3.Concat(*[z3.Union(z3.Re(c.lower()), z3.Re(c.upper())) if c.lower() != c.upper() else z3.Re(c) for c in word]) if len(word) > 1 else z3.Re(word)
+
+
+def based_literals_spec(ctx, only_known):
+    import json as _json
+    import os as _os
+    import struct as _struct
+    import common
+    import regexsmt as R
+    cfg = _json.load(open(_os.path.join(common.REPO, "src/json/config.json")))
+    parse = cfg["parse"]
+    names = sorted({k.lower() for k in cfg["currencies"]} | {k.lower() for k in cfg["currency_alias"]})
+    names = [n_ for n_ in names if n_.isascii() and n_.isalpha() and len(n_) >= 2]
+    ctx.part.functions.append("config.json parse.number / parse.money, currencies, currency_alias")
+    anyc = z3.Union(z3.Range(" ", "~"))
+    sigma = z3.Star(anyc)
+    digit = z3.Range("0", "9")
+    letter = z3.Union(z3.Range("a", "z"), z3.Range("A", "Z"))
+    hexd = z3.Union(digit, z3.Range("a", "f"), z3.Range("A", "F"))
+    shapes = {
+        "HEX": (z3.Concat(z3.Re("0"), z3.Union(z3.Re("x"), z3.Re("X")), z3.Loop(hexd, 1, 12)), lambda w: float(int(w[2:], 16)), 4),
+        "OCTAL": (z3.Concat(z3.Re("0"), z3.Union(z3.Re("o"), z3.Re("O")), z3.Loop(z3.Range("0", "7"), 1, 16)), lambda w: float(int(w[2:], 8)), 4),
+        "BINARY": (z3.Concat(z3.Re("0"), z3.Union(z3.Re("b"), z3.Re("B")), z3.Loop(z3.Range("0", "1"), 1, 40)), lambda w: float(int(w[2:], 2)), 4),
+        "DECIMAL": (z3.Concat(z3.Loop(digit, 1, 12), z3.Option(z3.Concat(z3.Re("."), z3.Loop(digit, 1, 3))), z3.Option(z3.Union(*[z3.Re(c) for c in "kKMGTPZY"]))),
+                    lambda w: float(w.rstrip("kKMGTPZY")) * {"k": 1e3, "K": 1e3, "M": 1e6, "G": 1e9, "T": 1e12, "P": 1e15, "Z": 1e18, "Y": 1e21}.get(w[-1], 1.0), 0),
+    }
+    n = 0
+
+    def witness(shape, lang):
+        nonlocal n
+        n += 1
+        ctx.part.queries += 1
+        s_ = z3.String("literal")
+        sol = z3.Solver()
+        sol.set("timeout", 60000)
+        sol.add(z3.InRe(s_, shape), z3.InRe(s_, lang))
+        r = sol.check()
+        if r == z3.unsat:
+            return None
+        if r != z3.sat:
+            raise Unsupported("regex intersection query undecided")
+        v = sol.model().eval(s_, model_completion=True)
+        return _unescape_z3(v.as_string())
+
+    def report(kind_code, w, val, what):
+        raw = w.encode("utf-8")
+        rp = ("m_replay_literal_string", [[kind_code], [0], [len(raw)]] + [[b] for b in raw] + [list(_struct.pack("<d", val))])
+        ctx.failures.append((what % w, {"literal": w}, rp))
+    # the money patterns with a currency WORD: a match is a money token only when the word is a configured code or alias;
+    # the word is the maximal run of letters (greedy {2,}), i.e. followed by a non-letter or the end
+    price = z3.Concat(z3.Plus(digit), z3.Star(z3.Union(digit, z3.Re("."), z3.Re(","))))
+    boundary = z3.Union(z3.Re(""), z3.Concat(z3.Union(digit, z3.Re("."), z3.Re(","), z3.Re(" ")), sigma))
+    def money_word(ns):
+        return z3.Concat(sigma, price, z3.Star(z3.Re(" ")), z3.Union(*[_ci(x) for x in ns]) if len(ns) > 1 else _ci(ns[0]), boundary)
+    known = [x for x in HEX_MONEY_KNOWN if x in names]
+    others = [x for x in names if x not in HEX_MONEY_KNOWN]
+    if only_known:
+        hit = 0
+        for nm in known:
+            w = witness(shapes["HEX"][0], money_word([nm]))
+            if w is not None:
+                hit += 1
+                report(4, w, shapes["HEX"][1](w), "the hexadecimal literal %r is claimed by the money pattern '<amount><currency word>' (its digits spell a configured currency code): read as money, not as the integer written")
+        if not n:
+            ctx.failures.append(("based literals: nothing checked", {}, None))
+        return
+    for key, (shape, val, kind_code) in shapes.items():
+        w = witness(shape, money_word(others))
+        if w is not None:
+            report(kind_code, w, val(w), "the " + key.lower() + " literal %r is claimed by the money pattern '<amount><currency word>': read as money, not as the number written")
+    # patterns of the number table that run before the literal's own pattern must not match inside it
+    order = []
+    for pat in parse["number"]:
+        m_ = _re.search(r"\(\?P<(HEX|OCTAL|BINARY|DECIMAL)>", pat)
+        if not m_:
+            raise Unsupported("number pattern without a known group: %r" % pat)
+        order.append((m_.group(1), pat))
+    for i, (key, _pat) in enumerate(order):
+        shape, val, kind_code = shapes[key]
+        for (ekey, epat) in order[:i]:
+            w = witness(shape, z3.Concat(sigma, R.to_z3(epat), sigma))
+            if w is not None:
+                report(kind_code, w, val(w), "the " + key.lower() + " literal %r contains a match of the " + ekey.lower() + " pattern, which config.json lists earlier: the earlier pattern claims its characters first")
+    if not n:
+        ctx.failures.append(("based literals: nothing checked", {}, None))
+
+
+@spec("C13", "r_based_literals_not_claimed", "config.json's number and money patterns as z3 regular expressions, with the configured currency codes and aliases: no 0x / 0o / 0b / decimal literal (up to 12 / 16 / 40 / 12 digits) contains a match of a number pattern listed earlier in the table, and none is claimed by the money pattern '<amount><currency word>' for any configured currency word - except the six words of the recorded known finding (intersection emptiness decided by the solver; a witness literal is replayed natively)")
+def _(ctx):
+    based_literals_spec(ctx, False)
+
+
+@spec("C13", "r_hex_literal_read_as_money", "the same intersection for the currency words xaf, xcd (after the leading 0) and aed, bbd, cad, cdf (after a run of decimal digits): hexadecimal literals such as 0xAF, 0xCD, 0x1AED must denote their integer (known finding: read as money)", finding="C13-hex-literal-read-as-money")
+def _(ctx):
+    based_literals_spec(ctx, True)
